@@ -309,7 +309,7 @@ func sraRound(pkgs []*packages.Package, overlay map[string][]byte) (map[string][
 				litFields := func(sv *sraVar, cl *ast.CompositeLit) ([]string, bool) {
 					vals := make([]string, len(sv.fields))
 					for i := range vals {
-						vals[i] = "*new(" + sv.ftext[i] + ")"
+						vals[i] = zeroText(sv, i)
 					}
 					if len(cl.Elts) == 0 {
 						return vals, true
@@ -991,7 +991,7 @@ func wholeReadContext(parent ast.Node, id *ast.Ident) bool {
 func litFieldsOf(sv *sraVar, cl *ast.CompositeLit, text func(ast.Node) string) ([]string, bool) {
 	vals := make([]string, len(sv.fields))
 	for i := range vals {
-		vals[i] = "*new(" + sv.ftext[i] + ")"
+		vals[i] = zeroText(sv, i)
 	}
 	if len(cl.Elts) == 0 {
 		return vals, true
@@ -1130,4 +1130,18 @@ func foreignSraVar(pkg *packages.Package, f *ast.File, v *types.Var, named *type
 		return nil
 	}
 	return sv
+}
+
+// zeroText: the zero value of field i, spelled so that later rounds recognise
+// it: `T{}` for a field of a named struct type (a literal the next scalar
+// replacement takes apart), `*new(T)` for everything else.
+func zeroText(sv *sraVar, i int) string {
+	if sv.st != nil && i < sv.st.NumFields() {
+		if n, ok := sv.st.Field(i).Type().(*types.Named); ok {
+			if _, isStruct := n.Underlying().(*types.Struct); isStruct && !strings.ContainsAny(sv.ftext[i], "*[] ") {
+				return sv.ftext[i] + "{}"
+			}
+		}
+	}
+	return "*new(" + sv.ftext[i] + ")"
 }
